@@ -15,7 +15,7 @@ func init() {
 		ID:          "C09",
 		Level:       "other",
 		Run:         runC09,
-		Explanation: "E-PATH over each pipelined variant's Run: R09.1 on every path from the branch taken on the ret flag to the normal return there are drain loops that cycle the execute units and the write units until empty, and no stage upstream of one drained earlier is cycled later without draining the downstream stage again (execute units refill the write bus); R09.2 the control unit does not dispatch ret while the execute bus is non-empty or (where the unit tracks it) a conditional branch is unresolved; R09.3 the decode unit stops decoding after ret until flushed; R09.4 the fall-off-the-end exit is guarded by the completion predicate; R09.5 in the drain at ret and after the main loop the write units are stepped without a sequence limit. Decides that ending the program is structurally preceded by draining every stage that can hold older work, in pipeline order. Does not decide the truthfulness of each unit's own isEmpty, nor timing. R09.6 the control unit neither loses nor duplicates an instruction: one taken from the input bus and not dispatched is queued, one read from the pending queue is removed when and only when it is dispatched. R09.7 a drain loop that ends on a local flag clears the flag wherever it finds a bus, coroutine or unit busy. R09.8 a flag that a unit's emptiness predicate reads and the unit raises while it works is lowered by the unit's flush. R09.9 the control unit's dispatch decision equals its reference model as a decision procedure over the uninterpreted answers of its predicates (one branch per cycle, ret held behind the bus and an unresolved conditional branch, held-back dependences, no-hazard / forwarding / renaming, with their polarity). R09.10 an execute unit whose emptiness is the negation of a busy flag lowers the flag only after the instruction has been run (MVP-4/5). R09.11 every loop of the CPU that waits for buses, coroutines or units runs while ANY of them is busy and steps each of them in its body, on the busy side of any guard (the drains before a flush and at the end of the run complete the older work). R09.12 the CPU's bool helpers consulted by the drain loops answer true only if every component they test did test empty.",
+		Explanation: "E-PATH over each pipelined variant's Run: R09.1 on every path from the branch taken on the ret flag to the normal return there are drain loops that cycle the execute units and the write units until empty, and no stage upstream of one drained earlier is cycled later without draining the downstream stage again (execute units refill the write bus); R09.2 the control unit does not dispatch ret while the execute bus is non-empty or (where the unit tracks it) a conditional branch is unresolved; R09.3 the decode unit stops decoding after ret until flushed; R09.4 the fall-off-the-end exit is guarded by the completion predicate; R09.5 in the drain at ret and after the main loop the write units are stepped without a sequence limit. Decides that ending the program is structurally preceded by draining every stage that can hold older work, in pipeline order. Does not decide the truthfulness of each unit's own isEmpty, nor timing. R09.6 the control unit neither loses nor duplicates an instruction: one taken from the input bus and not dispatched is queued, one read from the pending queue is removed when and only when it is dispatched. R09.7 a drain loop that ends on a local flag clears the flag wherever it finds a bus, coroutine or unit busy. R09.8 a flag that a unit's emptiness predicate reads and the unit raises while it works is lowered by the unit's flush. R09.9 the control unit's dispatch decision equals its reference model as a decision procedure over the uninterpreted answers of its predicates (one branch per cycle, ret held behind the bus and an unresolved conditional branch, held-back dependences, no-hazard / forwarding / renaming, with their polarity). R09.10 an execute unit whose emptiness is the negation of a busy flag lowers the flag only after the instruction has been run (MVP-4/5). R09.11 every loop of the CPU that waits for buses, coroutines or units runs while ANY of them is busy and steps each of them in its body, on the busy side of any guard (the drains before a flush and at the end of the run complete the older work). R09.12 the CPU's bool helpers consulted by the drain loops answer true only if every component they test did test empty. R09.13 both branches of a controller's final write-back of a modified line write it; R09.14 the operations that fold the speculative register state at the end of the run (Commit, RATCommit, RATFlush, the sorted rename-table write) equal their reference models.",
 		Assumptions: []string{"a unit reports empty only when it holds no work (unit-local invariant, not decided)"},
 		Trusted:     []string{"go/types", "role resolution of units (exec = reaches InstructionRunner.Run, write = reaches a Context writer); see evidence.anchors"},
 	})
@@ -211,6 +211,18 @@ func runC09(r *Run) {
 	ruleCompletionPredicate(r, "R09.4")
 	r.floor("R09.2b", 7)
 	ruleDispatchBookkeeping(r, "R09.2b")
+	// the end of the run folds the speculative register state and writes the dirty lines back: the operations
+	// that do it equal their reference models (shared with C15/C04), and both branches of the controller's
+	// final write-back write the line (shared with C05)
+	r.floor("R09.13", 1)
+	ruleFinalWriteBackBranches(r, "R09.13")
+	r.floor("R09.14", 8)
+	for _, m := range []string{"Commit", "RATCommit", "RATFlush", "TransactionRATWrite", "TransactionWriteRegister", "commitRAT"} {
+		conform(r, "R09.14", "risc", "Context", m, "risc_state", nil)
+	}
+	for _, m := range []string{"WriteSorted", "Values", "Write"} {
+		conform(r, "R09.14", "proc/comp", "RAT", m, "risc_state", nil)
+	}
 	r.floor("R09.12", 10)
 	ruleIdleHelpersTruthful(r, "R09.12")
 	r.floor("R09.11", 100)
